@@ -49,6 +49,11 @@ Apply1(s, o) ==
                                       a1 == DeleteAt(s.arr, o.i)
                                   IN IF o.j = End THEN Ok(St(Append(a1, v), s.x))
                                      ELSE IF o.j <= Len(a1) THEN Ok(St(InsertAt(a1, o.j, v), s.x)) ELSE Fail
+      \* copy /arr/i -> /arr/j (also i = j: a copy is an add, and an add at an index inserts)
+      [] o.k = "copy"     -> IF o.i >= n THEN Fail
+                             ELSE LET v == s.arr[o.i + 1]
+                                  IN IF o.j = End THEN Ok(St(Append(s.arr, v), s.x))
+                                     ELSE IF o.j <= n THEN Ok(St(InsertAt(s.arr, o.j, v), s.x)) ELSE Fail
       [] o.k = "copy_to_x" -> IF o.i < n THEN Ok(St(s.arr, s.arr[o.i + 1])) ELSE Fail  \* copy /arr/i -> /x
 
 RECURSIVE ApplyList(_, _)
@@ -64,6 +69,7 @@ OpsAlphabet ==
     \cup {Op("test", i, 0, v) : i \in Idx \cup {Neg}, v \in Vals}
     \cup {Op("copy_x", i, 0, 0) : i \in Idx \cup {End}}
     \cup {Op("move", i, j, 0) : i \in Idx, j \in Idx \cup {End}}
+    \cup {Op("copy", i, j, 0) : i \in Idx, j \in Idx \cup {End}}
     \cup {Op("copy_to_x", i, 0, 0) : i \in Idx}
 
 Arrays == UNION {[1..n -> Vals] : n \in 0..MaxArr}
@@ -83,7 +89,7 @@ Next == \E l \in Lists : Step(l)
 -----------------------------------------------------------------------------
 \* a failing list leaves nothing behind; a list that applies changes the length by adds - removes
 AllOrNothing == (list # <<>> /\ ~res.ok) => res.st = St(<<>>, Absent)
-Delta(o) == CASE o.k \in {"add", "copy_x"} -> 1 [] o.k = "remove" -> -1 [] OTHER -> 0
+Delta(o) == CASE o.k \in {"add", "copy_x", "copy"} -> 1 [] o.k = "remove" -> -1 [] OTHER -> 0
 RECURSIVE SumDelta(_)
 SumDelta(l) == IF l = <<>> THEN 0 ELSE Delta(Head(l)) + SumDelta(Tail(l))
 LengthAccounting == (list # <<>> /\ res.ok) => Len(res.st.arr) = Len(arr) + SumDelta(list)
